@@ -91,6 +91,17 @@ def run_case(case):
         import nasim.scenarios.benchmark as b
         r = b.AVAIL_GEN_BENCHMARKS[case["name"]]["restrictiveness"]
         return {"fp": fp, "branch": branch_stats(can, r)}
+    if case["type"] == "actions":
+        # index -> action mapping of the flat space (C11)
+        from nasim.envs import NASimEnv
+        from .api import action_signature
+        sc, sp = build_source(case["source"])
+        env = NASimEnv(sc, flat_actions=True)
+        sigs = [sorted((k, repr(v)) for k, v in action_signature(a).items())
+                for a in env.action_space.actions]
+        blob = json.dumps(sigs, sort_keys=True)
+        return {"fp": hashlib.sha256(blob.encode()).hexdigest()[:20],
+                "n": len(sigs)}
     # trajectory
     from nasim.envs import NASimEnv
     sc, sp = build_source(case["source"])
